@@ -64,4 +64,45 @@ func genProtocolGuards(s *src, o *out) {
 	rest := strings.Contains(rp, "t.resumeRestSize = size - matchStep") &&
 		reset >= 0 && reset < name && chk > size && chk < data
 	o.raw("Definition c02_resume_rest_check : bool := %v.\n", rest)
+
+	// the same check as a value the model of the fault exchange interprets (Model/FaultResume.v):
+	//   c02_resume_rest_guard  2: refused whenever the remembered rest is >= 0 and differs (rest 0 =
+	//                             the receiver keeps the whole destination - included); 1: only when
+	//                             it is > 0; 0: no such check at that place
+	guard := 0
+	plumbing := strings.Contains(rp, "t.resumeRestSize = size - matchStep") && reset >= 0 && reset < name
+	for g, op := range map[int]string{2: ">=", 1: ">"} {
+		k := strings.Index(rfs, "if t.resumeRestSize "+op+" 0 && size != t.resumeRestSize { return nil, simpleTrzszError(")
+		if plumbing && k > size && k < data {
+			guard = g
+		}
+	}
+	o.defN("c02_resume_rest_guard", int64(guard))
+	//   c02_resume_truncates   1: recvPrefixHash cuts the destination at its own offset unconditionally
+	//                             (Seek, then Truncate, each returning its error); 2: only when the
+	//                             existing file is longer than the announced size; 0: anything else
+	trunc := 0
+	if strings.Contains(rp, "if _, err := file.Seek(matchStep, io.SeekStart); err != nil { return err } if err := file.Truncate(matchStep); err != nil { return err }") {
+		trunc = 1
+	} else if strings.Contains(rp, "if tgtFile.Size > size { if err := file.Truncate(matchStep); err != nil { return err } }") {
+		trunc = 2
+	}
+	o.defN("c02_resume_truncates", int64(trunc))
+	// where the receiver takes the source size from: protocol < 4 reads the hash-phase SIZE line
+	//   c02_resume_size_guard  0: the number is used as delivered; 1: it is compared with the size in the
+	//                             NAME record (when that is > 0) and a size below the receiver's own offset
+	//                             is refused before the rest is remembered
+	const plain = "if t.transferConfig.Protocol < kProtocolVersion4 { var err error size, err = t.recvInteger(\"SIZE\", false, t.getNewTimeout()) if err != nil { return err } } else { size = srcFile.Size }"
+	const guarded = "if t.transferConfig.Protocol < kProtocolVersion4 { var err error size, err = t.recvInteger(\"SIZE\", false, t.getNewTimeout()) if err != nil { return err } if srcFile.Size > 0 && size != srcFile.Size { return simpleTrzszError("
+	sizeGuard := 0
+	switch {
+	case strings.Contains(rp, plain):
+	case strings.Contains(rp, guarded) && strings.Contains(rp, "} else { size = srcFile.Size }") &&
+		strings.Contains(rp, "if size < matchStep { return simpleTrzszError(") &&
+		strings.Index(rp, "if size < matchStep { return simpleTrzszError(") < strings.Index(rp, "t.resumeRestSize = size - matchStep"):
+		sizeGuard = 1
+	default:
+		die("recvPrefixHash no longer takes the source size from the SIZE line (protocol < 4) / the NAME record (protocol >= 4) in one of the two known ways")
+	}
+	o.defN("c02_resume_size_guard", int64(sizeGuard))
 }
